@@ -23,7 +23,8 @@ package main
 //   * a call of a local function value with an `&AuthenticationInput{…}` argument                        → .callback line
 //   * a call of another function of the table                                                            → .call name line
 //   * return / continue / break (unlabelled, not directly inside a switch)                               → .ret / .cont / .brk
-//   * if / else (the conditions `data != nil` and `X.Body != http.NoBody && X.Body != nil` are kept: .ifData, .ifBody),
+//   * if / else (the conditions `data != nil` and `X.Body != http.NoBody && X.Body != nil` are kept: .ifData, .ifBody;
+//     an `if` whose block reads the body under any OTHER condition is `unrecognised`: the guard of a read is part of the table),
 //     switch (a chain of .ifElse), for / range (.loop)
 //   * every other statement or expression contributes the events of the calls inside it (function literals are
 //     not entered: they are not executed there) and nothing else.
@@ -285,6 +286,19 @@ func (c *c13flow) assignsStreamField(s ast.Stmt) bool {
 	return false
 }
 
+// a statement list that reads the body itself (not inside a nested block)
+func (c *c13flow) readsDirectly(list []ast.Stmt) bool {
+	for _, s := range list {
+		if c.isReadAssign(s) {
+			return true
+		}
+		if ifs, ok := s.(*ast.IfStmt); ok && ifs.Init != nil && c.isReadAssign(ifs.Init) {
+			return true
+		}
+	}
+	return false
+}
+
 func lst(items []string) string { return "[" + strings.Join(items, ", ") + "]" }
 
 func (c *c13flow) stmts(list []ast.Stmt, inSwitch bool) []string {
@@ -361,6 +375,10 @@ func (c *c13flow) stmt(s ast.Stmt, inSwitch bool) []string {
 			kind = ".ifData"
 		} else if c13BodyPresent.MatchString(ct) {
 			kind = ".ifBody"
+		} else if c.readsDirectly(x.Body.List) {
+			// the guard of a read must be exactly "the request has a body": anything else (a further conjunct, a test of
+			// ContentLength, …) decides differently which bodies are read at all
+			return append(out, c.unrec(x.Pos()))
 		}
 		return append(out, fmt.Sprintf("%s %d %s %s", kind, c.line(x.Pos()), lst(c.stmts(x.Body.List, inSwitch)), lst(els)))
 	case *ast.ForStmt:
